@@ -112,3 +112,66 @@ func init() {
 		},
 	})
 }
+
+// c04.extremes: deadlines at the ends of the range — 0 (what a create without a timeout field produces), 1, already
+// in the past, the largest int64 (the clients' "never"), centuries ahead (beyond what fits a time.Duration in
+// nanoseconds) — touched first by each of the paths that can time a promise out (read, repeat create, complete,
+// search, the sweep). The row and payload monitors do the judging.
+func init() {
+	register(&Family{
+		Name:  "c04.extremes",
+		Props: map[string][2]int{"C04": {160, 4000}, "C01": {40, 1000}, "C02": {40, 1000}},
+		Run: func(c *Ctx) {
+			r := c.R
+			cfg := randCfg(r, nil)
+			if r.Intn(2) == 0 {
+				cfg.Bg = []string{"TimeoutPromises"}
+				cfg.BgPeriod = int64(pick(r, 1, 3))
+			}
+			cfg.ApiSize = 100
+			cfg.Sys.CoroutineMaxSize = 1000
+			pol := randPolicy(r, false)
+			s := c.NewSim(cfg, pol)
+			s.now = T0
+			const maxI64 = int64(^uint64(0) >> 1)
+			deadlines := []int64{0, 0, 1, T0 - 5000, T0, maxI64, maxI64 - 1, T0 + 9467280000000, T0 + 9214646400000, T0 + 9300000000000, T0 + 3153600000000}
+			type pr struct {
+				id string
+				to int64
+			}
+			var ps []pr
+			for i := 0; i < 2+r.Intn(4); i++ {
+				to := pick(r, deadlines...)
+				var tags map[string]string
+				if r.Intn(3) == 0 {
+					tags = map[string]string{"resonate:timeout": "true"}
+				}
+				id := fmt.Sprintf("x%d", i)
+				ps = append(ps, pr{id, to})
+				s.Submit("u", reqCreate(id, kp("k"), false, to, tags, "param"))
+			}
+			for step := 0; step < 12; step++ {
+				s.Tick(s.now + pick(r, int64(0), 1, 5, 1000))
+				p := ps[r.Intn(len(ps))]
+				switch r.Intn(6) {
+				case 0, 1:
+					s.Submit("u", reqRead(p.id))
+				case 2:
+					s.Submit("u", reqCreate(p.id, kp("k"), r.Intn(3) == 0, p.to, nil, "again"))
+				case 3:
+					s.Submit("u", reqComplete(p.id, nil, false, pick(r, promise.Resolved, promise.Rejected), "v"))
+				case 4:
+					s.Submit("u", reqSearch("*", []promise.State{promise.Pending, promise.Resolved, promise.Rejected, promise.Canceled, promise.Timedout}, nil, 10, nil))
+				}
+			}
+			if !s.Drain(1, 300) {
+				c.Rep.Inconclusive++
+			}
+			for _, p := range ps {
+				s.Submit("final", reqRead(p.id))
+			}
+			s.Drain(1, 100)
+			c.Nontrivial()
+		},
+	})
+}
